@@ -41,6 +41,8 @@ structure Ghost where
   hist : Label → Nat → Path → Nat
   /-- what that run observed of dependency `x` -/
   obs : Label → Nat → Label → List (Path × SrcVal)
+  /-- labels whose record a garbage collection removed: they are never defined again (C14's exclusion) -/
+  retired : Label → Prop
 
 def runsOf (r : Option Rec) : Nat := match r with | some r => r.runs | none => 0
 
@@ -61,8 +63,8 @@ structure DInv (P : Params) (S : Shape) (w : World) (G : Ghost) : Prop where
   /-- what it observed is what the stamps it lists stand for -/
   rec_seen : ∀ l r e, w.recs l = some r → r.rerun = false → r.data = .env e →
     ∀ x ∈ S.readsOf l e, SeenOK P S G r x (G.obs l r.runs x)
-  /-- listed run counters never exceed the dependency's present counter -/
-  runs_le : ∀ l r, w.recs l = some r → ∀ x st, r.deps.lookup x = some st → st.runs ≤ runsOf (w.recs x)
+  /-- listed run counters never exceed the dependency's present counter (unless the dependency was collected for good) -/
+  runs_le : ∀ l r, w.recs l = some r → ∀ x st, r.deps.lookup x = some st → st.runs ≤ runsOf (w.recs x) ∨ G.retired x
   /-- sources are never counted -/
   src_runs : ∀ l r, w.recs l = some r → S.kindOf l = .src → r.runs = 0
 
@@ -387,7 +389,7 @@ namespace Dawn.Build
 /-! ## one record replaced, only its owner's files touched: the persisted invariant survives -/
 
 theorem seenOK_mono {P : Params} {S : Shape} {G G' : Ghost} {w : World} (di : DInv P S w G) {y : Label} {r : Rec}
-    (hr : w.recs y = some r) {T : Label}
+    (hr : w.recs y = some r) {T : Label} (hTr : ¬ G.retired T)
     (hhist : ∀ z k g, (z ≠ T ∨ k ≤ runsOf (w.recs T)) → G'.hist z k g = G.hist z k g)
     {x : Label} {obs : List (Path × SrcVal)} (h : SeenOK P S G r x obs) : SeenOK P S G' r x obs := by
   unfold SeenOK at *
@@ -403,18 +405,21 @@ theorem seenOK_mono {P : Params} {S : Shape} {G G' : Ghost} {w : World} (di : DI
     have : G'.hist x kx g = G.hist x kx g := by
       apply hhist
       by_cases e : x = T
-      · right; subst e; exact di.runs_le y r hr x _ hl
+      · right; subst e
+        rcases di.runs_le y r hr x _ hl with h | h
+        · exact h
+        · exact absurd h hTr
       · left; exact e
     rw [this]
 
 theorem dinv_step {P : Params} {S : Shape} {w w' : World} {G G' : Ghost} {T : Label} {r' : Rec}
-    (di : DInv P S w G)
+    (di : DInv P S w G) (hTr : ¬ G.retired T) (hret : ∀ x, G.retired x → G'.retired x)
     (hrecs : ∀ y, y ≠ T → w'.recs y = w.recs y) (hT : w'.recs T = some r')
     (hfiles : ∀ p, S.owner p ≠ some T → w'.files p = w.files p)
     (hhist : ∀ z k g, (z ≠ T ∨ k ≤ runsOf (w.recs T)) → G'.hist z k g = G.hist z k g)
     (hobs : ∀ z k x, (z ≠ T ∨ k ≤ runsOf (w.recs T)) → G'.obs z k x = G.obs z k x)
     (hruns : runsOf (w.recs T) ≤ r'.runs)
-    (hdeps : ∀ x st, r'.deps.lookup x = some st → st.runs ≤ runsOf (w'.recs x))
+    (hdeps : ∀ x st, r'.deps.lookup x = some st → st.runs ≤ runsOf (w'.recs x) ∨ G'.retired x)
     (hsrc : S.kindOf T = .src → r'.runs = 0)
     (hnew : r'.rerun = false → ∀ e, r'.data = .env e →
       (∀ g ∈ S.gensOf T e, w'.files g = .missing ∨ w'.files g = .file (G'.hist T r'.runs g)) ∧
@@ -457,14 +462,16 @@ theorem dinv_step {P : Params} {S : Shape} {w w' : World} {G G' : Ghost} {T : La
       exact (hnew hrr e hd).2.2 x hx
     · rw [hrecs l hl] at hr
       rw [hobs l _ _ (Or.inl hl)]
-      exact seenOK_mono di hr hhist (di.rec_seen l r e hr hrr hd x hx)
+      exact seenOK_mono di hr hTr hhist (di.rec_seen l r e hr hrr hd x hx)
   · intro l r hr x st hst
     by_cases hl : l = T
     · subst hl
       rw [hT] at hr; cases hr
       exact hdeps x st hst
     · rw [hrecs l hl] at hr
-      exact Nat.le_trans (di.runs_le l r hr x st hst) (hmono x)
+      rcases di.runs_le l r hr x st hst with h | h
+      · exact Or.inl (Nat.le_trans h (hmono x))
+      · exact Or.inr (hret x h)
   · intro l r hr hk
     by_cases hl : l = T
     · subst hl
@@ -626,27 +633,29 @@ theorem hold_frame {P : Params} {S : Shape} {t : Tree} {s : BSt} {G G' : Ghost} 
 
 theorem visit_inv {P : Params} {S : Shape} {t : Tree} {o : Opts} {s : BSt} {G : Ghost} {l : Label}
     (hc : Conforms S t) (hinj : SumInj P) (hsr : P.stampRuns = true) (hdry : o.dry = false)
-    (di : DInv P S s.w G) (mi : MInv P S t s G) (ord : Order t s l) :
-    ∃ G', DInv P S (visit P t o s l).w G' ∧ MInv P S t (visit P t o s l) G' := by
+    (di : DInv P S s.w G) (mi : MInv P S t s G) (ord : Order t s l) (hret : ∀ x, G.retired x → t.defs x = none) :
+    ∃ G', DInv P S (visit P t o s l).w G' ∧ MInv P S t (visit P t o s l) G' ∧ G'.retired = G.retired := by
   cases hd : t.defs l with
   | none =>
-    refine ⟨G, ?_, ?_⟩
+    refine ⟨G, ?_, ?_, rfl⟩
     · simpa [visit, hd] using di
     · apply minv_extend (res := failedRes true) mi ord.fresh
       · intro x m hx hok; simpa [visit, hd] using mi.mok x m hx hok
       · intro h; cases h
       · simp [visit, hd]
   | some d =>
+    have hlr : ¬ G.retired l := by
+      intro h; have := hret l h; rw [hd] at this; cases this
     cases hp : plan P t o s l d with
     | depFailed report =>
-      refine ⟨G, ?_, ?_⟩
+      refine ⟨G, ?_, ?_, rfl⟩
       · simpa [visit, hd, hp] using di
       · apply minv_extend (res := failedRes false) mi ord.fresh
         · intro x m hx hok; simpa [visit, hd, hp] using mi.mok x m hx hok
         · intro h; cases h
         · simp [visit, hd, hp]
     | skip info =>
-      refine ⟨G, ?_, ?_⟩
+      refine ⟨G, ?_, ?_, rfl⟩
       · simpa [visit, hd, hp] using di
       · apply minv_extend (res := ⟨true, false, stampOf P info, false⟩) mi ord.fresh
         · intro x m hx hok; simpa [visit, hd, hp] using mi.mok x m hx hok
@@ -674,9 +683,11 @@ theorem visit_inv {P : Params} {S : Shape} {t : Tree} {o : Opts} {s : BSt} {G : 
           cases hr : s.w.recs l with
           | none => rfl
           | some r => exact di.src_runs l r hr (by rw [← hkind, hk])
-        refine ⟨G, ?_, ?_⟩
+        refine ⟨G, ?_, ?_, rfl⟩
         · rw [hw]
           apply dinv_step (T := l) di (r' := ⟨dd, srcData P (s.w.files d.path), false, info.runs⟩)
+          · exact hlr
+          · intro x h; exact h
           · intro y hy; simp [upd, hy]
           · simp
           · intro p _; rfl
@@ -684,6 +695,7 @@ theorem visit_inv {P : Params} {S : Shape} {t : Tree} {o : Opts} {s : BSt} {G : 
           · intro _ _ _ _; rfl
           · simp [hiruns]
           · intro x st h
+            left
             refine Nat.le_trans (hddle x st h) ?_
             by_cases e : x = l
             · subst e; simp [runsOf, hiruns]
@@ -721,8 +733,10 @@ theorem visit_inv {P : Params} {S : Shape} {t : Tree} {o : Opts} {s : BSt} {G : 
                 subst hgc; rw [hg]; exact List.mem_cons_self
               · cases hgc
             · exact hp
-          refine ⟨G, ?_, ?_⟩
+          refine ⟨G, ?_, ?_, rfl⟩
           · apply dinv_step (T := l) di (r' := ⟨dd, .empty, true, info.runs⟩)
+            · exact hlr
+            · intro x h; exact h
             · intro y hy; rw [hw]; simp [upd, hy]
             · rw [hw]; simp
             · exact hfiles
@@ -730,6 +744,7 @@ theorem visit_inv {P : Params} {S : Shape} {t : Tree} {o : Opts} {s : BSt} {G : 
             · intro _ _ _ _; rfl
             · simp [hiruns]
             · intro x st h
+              left
               refine Nat.le_trans (hddle x st h) ?_
               rw [hw]
               by_cases e : x = l
@@ -748,7 +763,8 @@ theorem visit_inv {P : Params} {S : Shape} {t : Tree} {o : Opts} {s : BSt} {G : 
           let content : Path → Nat := fun g => P.out l d.env (d.reads.map fun x => (x, observe t s.w x)) g
           let G' : Ghost :=
             { hist := fun y k' g => if y = l ∧ k' = k then content g else G.hist y k' g
-              obs := fun y k' x => if y = l ∧ k' = k then observe t s.w x else G.obs y k' x }
+              obs := fun y k' x => if y = l ∧ k' = k then observe t s.w x else G.obs y k' x
+              retired := G.retired }
           have hhist : ∀ z k' g, (z ≠ l ∨ k' ≤ runsOf (s.w.recs l)) → G'.hist z k' g = G.hist z k' g := by
             intro z k' g h
             have : ¬ (z = l ∧ k' = k) := by
@@ -791,8 +807,10 @@ theorem visit_inv {P : Params} {S : Shape} {t : Tree} {o : Opts} {s : BSt} {G : 
             obtain ⟨m, hm, hok⟩ := hdepsok x hxd
             exact observe_frame hc hfiles (by simp [hd]) (hlfresh x hxd)
               (fun dy hdy => ord.above x m dy hm hok hdy)
-          refine ⟨G', ?_, ?_⟩
+          refine ⟨G', ?_, ?_, rfl⟩
           · apply dinv_step (T := l) di (r' := ⟨dd, .env d.env, false, k⟩)
+            · exact hlr
+            · intro x h; exact h
             · intro y hy; rw [hw]; simp [upd, hy]
             · rw [hw]; simp only [upd_same]; rfl
             · exact hfiles
@@ -800,6 +818,7 @@ theorem visit_inv {P : Params} {S : Shape} {t : Tree} {o : Opts} {s : BSt} {G : 
             · exact hobs
             · simp [k, hiruns]
             · intro x st h
+              left
               refine Nat.le_trans (hddle x st h) ?_
               rw [hw]
               by_cases e : x = l
@@ -856,14 +875,16 @@ namespace Dawn.Build
 theorem build_inv {P : Params} {S : Shape} {t : Tree} {o : Opts} (hc : Conforms S t) (hinj : SumInj P)
     (hsr : P.stampRuns = true) (hdry : o.dry = false) :
     ∀ (ord : List Label) (s : BSt) (G : Ghost), DInv P S s.w G → MInv P S t s G → Ordered P t o s ord →
-      ∃ G', DInv P S (build P t o s ord).w G' ∧ MInv P S t (build P t o s ord) G' := by
+      (∀ x, G.retired x → t.defs x = none) →
+      ∃ G', DInv P S (build P t o s ord).w G' ∧ MInv P S t (build P t o s ord) G' ∧ G'.retired = G.retired := by
   intro ord
   induction ord with
-  | nil => intro s G di mi _; exact ⟨G, di, mi⟩
+  | nil => intro s G di mi _ _; exact ⟨G, di, mi, rfl⟩
   | cons l rest ih =>
-    intro s G di mi ho
-    obtain ⟨G1, di1, mi1⟩ := visit_inv hc hinj hsr hdry di mi ho.1
-    exact ih _ G1 di1 mi1 ho.2
+    intro s G di mi ho hret
+    obtain ⟨G1, di1, mi1, hr1⟩ := visit_inv hc hinj hsr hdry di mi ho.1 hret
+    obtain ⟨G2, di2, mi2, hr2⟩ := ih _ G1 di1 mi1 ho.2 (by rw [hr1]; exact hret)
+    exact ⟨G2, di2, mi2, by rw [hr2, hr1]⟩
 
 theorem runsOf_sem (r : Option Rec) : runsOf r = (semRec r).runs := by
   cases r <;> rfl
@@ -942,12 +963,12 @@ visited successfully holds exactly what its body computes from the present files
 generated file it declares is present. -/
 theorem build_consistent {P : Params} {S : Shape} {t : Tree} {o : Opts} (hc : Conforms S t) (hinj : SumInj P)
     (hsr : P.stampRuns = true) (hdry : o.dry = false) (ord : List Label) (w : World) (G : Ghost)
-    (di : DInv P S w G) (ho : Ordered P t o (BSt.init (load t w)) ord) :
-    ∃ G', DInv P S (runBuild P t o ord w).w G' ∧
+    (di : DInv P S w G) (ho : Ordered P t o (BSt.init (load t w)) ord) (hret : ∀ x, G.retired x → t.defs x = none) :
+    ∃ G', DInv P S (runBuild P t o ord w).w G' ∧ G'.retired = G.retired ∧
       ∀ l m d, (runBuild P t o ord w).memo l = some m → m.ok = true → t.defs l = some d → d.kind = .fn →
         Consistent P t (runBuild P t o ord w).w l d := by
-  obtain ⟨G', di', mi'⟩ := build_inv hc hinj hsr hdry ord (BSt.init (load t w)) G (dinv_load t di) (minv_init t _ G) ho
-  refine ⟨G', di', ?_⟩
+  obtain ⟨G', di', mi', hr'⟩ := build_inv hc hinj hsr hdry ord (BSt.init (load t w)) G (dinv_load t di) (minv_init t _ G) ho hret
+  refine ⟨G', di', hr', ?_⟩
   intro l m d hm hok hd hk
   obtain ⟨d', hd', h⟩ := mi'.mok l m hm hok
   rw [hd] at hd'; cases hd'
